@@ -269,7 +269,7 @@ class DelayedS3Writer(S3Limits):
         if client is None:
             # Assume running locally with everyone sharing same self.mpu
             with _mpu_local_lock():
-                if not final_write:
+                if not mpu.started and not final_write:
                     _ = mpu.initiate(**self.kw)
                 return mpu
 
